@@ -49,6 +49,15 @@ def gen_cases(tier, seed):
     for i in range(30 if tier == "quick" else 600):
         cases.append({"kind": "dist", "cfg": dzoo.sample_dist_cfg(rng), "seed": env.subseed(seed, "c12d", i), "world": "f64",
                       "cost": 1})
+    # batch-normalised MADE mixtures in every block type (the only library distribution with batch statistics inside)
+    k = 0
+    for res, rm in ((True, False), (False, False), (False, True)):
+        for ctx in (0, 2):
+            for blocks in (1, 2):
+                cases.append({"kind": "dist", "cfg": {"dist": "mademog", "features": 2 + k % 2, "hidden": 8, "ctx": ctx, "comps": 1 + k % 3,
+                                                      "blocks": blocks, "residual": res, "random_mask": rm, "narrow": False, "bn": True},
+                              "seed": env.subseed(seed, "c12bn", k), "world": "f64", "cost": 1})
+                k += 1
     return cases
 
 
